@@ -40,6 +40,10 @@ const (
 
 var allOnes64 = bvLit(64, ^uint64(0))
 
+// abstract per-object field store written by the Set* methods
+var rvStateHeaps = [][2]string{{"rvInt", sBV64}, {"rvFlt", sF64}, {"rvStrS", sBV64}, {"rvStrO", sBV64}, {"rvStrL", sBV64}, {"rvRef", sBV64}, {"rvOff", sBV64},
+	{"rvLen", sBV64}, {"rvSrcMt", sBV64}, {"rvTsec", sBV64}, {"rvTns", sBV64}, {"rvTzoff", sBV64}, {"rvTzid", sBV64}}
+
 func rvType() types.Type { return reflectValueType }
 
 var reflectValueType types.Type
@@ -89,7 +93,33 @@ func truncTo(wid, x string, signed bool) string {
 	return ite(eq(wid, bvLit(64, 8)), f(8), ite(eq(wid, bvLit(64, 16)), f(16), ite(eq(wid, bvLit(64, 32)), f(32), x)))
 }
 
+func rvEffects(vc *VC, cc *ssa.CallCommon) []locTarget {
+	// precise key when the receiver (or the slice Value it indexes) was computed before the loop
+	key := ""
+	if vc.effFrame != nil && len(cc.Args) > 0 {
+		recv := cc.Args[0]
+		if c, ok := recv.(*ssa.Call); ok {
+			if f, ok := c.Call.Value.(*ssa.Function); ok && f.String() == "(reflect.Value).Index" {
+				recv = c.Call.Args[0]
+			}
+		}
+		if v, ok := vc.effFrame.vals[recv]; ok && len(v.L) > iObj {
+			key = v.L[iObj]
+		}
+	}
+	var out []locTarget
+	for _, n := range rvStateHeaps {
+		hs := arrSort(sBV64, arrSort(sBV64, n[1]))
+		vc.ghostSorts[ghostHeapName(n[0])] = hs
+		out = append(out, locTarget{name: ghostHeapName(n[0]), sort: hs, whole: key == "", key: key})
+	}
+	return out
+}
+
 func init() {
+	for _, m := range []string{"SetUint", "SetInt", "SetFloat", "SetString", "SetBytes", "Set"} {
+		externEffectTable["(reflect.Value)."+m] = rvEffects
+	}
 	reg := func(name string, h externFn) {
 		externTable[name] = func(vc *VC, fr *Frame, st *State, call *ssa.CallCommon, args []Val, rt types.Type) Val {
 			vc.trusted[reflectAssumption] = true
